@@ -16,6 +16,7 @@ var Checks = map[string]vh.CheckFunc{
 	"C08": C08,
 	"C09": C09,
 	"C10": C10,
+	"C11": C11,
 	"C13": C13,
 	"C18": C18,
 }
